@@ -96,6 +96,17 @@ CLAIMED: dict[str, tuple[str, str, str, str, str]] = {
         "Trusted: TLC; in-memory listener starting one task per datagram in arrival order. Bounds: 4-5 datagrams per address (model), 1-3 addresses x "
         "1-5 datagrams (traces).",
     ),
+    "C19": (
+        "model_checking",
+        "TLA+ spec ConnectRace (staggered race, socket life cycle, winner/scope cancellation, external cancel, bind failures) model-checked by "
+        "TLC; logs of the real _staggered_race_connection_impl driven by a scripted resolver + recording socket class validated by TLC against "
+        "ConnectRaceTrace (cancellations of losers inferred as silent steps, number of open sockets bound at every quiescent point)",
+        "DESIGN.md section 6 (C19)",
+        "TLC explores every completion order and outcome of up to 4-5 attempts relative to the stagger delay, bind failures and an external "
+        "cancellation at every step, with the invariants 'one connected socket returned, nothing else open / nothing open on failure'; thousands "
+        "of executions of the real code are decided against that specification, with /proc/self/fd as an independent leak oracle.",
+        "Trusted: TLC; the recording socket subclass injected through the resolver module's socket alias (driver process only).",
+    ),
 }
 
 NOT_YET = "check not built yet in this revision of /verif (planned: see DESIGN.md section 0); not claimed until its check exists"
